@@ -42,15 +42,17 @@ def setup_net(case):
     srv = fakenet.Server({'hostkeys': {'ssh-ed25519': {'t': 'ed25519'}}})
     srv1 = fakenet.peer_from_spec({'proto': 1})       # a protocol-1 server (reached through the version-mismatch fallback)
     targets = case['targets']
+    names = sorted({t['host'] for t in targets})
     for t in targets:
         host, port = t['host'], t['eport']
+        hx = names.index(host)          # every host name of a case gets addresses of its own
         if ':' in host or host[0].isdigit():
             ips = [(AF6 if ':' in host else AF4, host)]
         else:
             r = t['resolver']
-            v4, v6 = (AF4, '198.51.100.%d' % (1 + abs(hash_str(host)) % 200)), (AF6, '2001:db8:aaaa::%x' % (1 + abs(hash_str(host)) % 60000))
-            v4b, v6b = (AF4, '198.51.100.%d' % (201 + abs(hash_str(host)) % 50)), (AF6, '2001:db8:bbbb::%x' % (1 + abs(hash_str(host)) % 60000))
-            ll = (AF6, 'fe80::5:%x' % (1 + abs(hash_str(host)) % 60000))       # a link-local address: the resolver's answer carries the interface (scope id)
+            v4, v6 = (AF4, '198.51.100.%d' % (1 + hx * 40 + abs(hash_str(host)) % 40)), (AF6, '2001:db8:aaaa::%x:%x' % (hx + 1, 1 + abs(hash_str(host)) % 60000))
+            v4b, v6b = (AF4, '198.51.100.%d' % (201 + hx * 10 + abs(hash_str(host)) % 10)), (AF6, '2001:db8:bbbb::%x:%x' % (hx + 1, 1 + abs(hash_str(host)) % 60000))
+            ll = (AF6, 'fe80::5:%x:%x' % (hx + 1, 1 + abs(hash_str(host)) % 60000))       # a link-local address: the resolver's answer carries the interface (scope id)
             net.scopes[ll[1]] = 2 + abs(hash_str(host)) % 5
             ips = {'v4': [v4], 'v6': [v6], 'both46': [v4, v6], 'both64': [v6, v4], 'mixed464': [v4, v6, v4b], 'mixed646': [v6, v4, v6b], 'many': [v6, v6b, v4, v4b], 'linklocal': [ll], 'linklocal+v4': [ll, v4]}[r]
             net.resolve[host] = ips
